@@ -74,22 +74,45 @@ _expand.returns_report = False
 
 
 def _replay(chunk):
-    """Worker: re-reach states by replaying traces from the public constructor."""
+    """Worker: re-reach states by replaying traces from the public constructor (the objects
+    live through the whole trace here), compare the exact key, and evaluate the invariant on
+    the replayed state as well."""
     mach = _machine
     n = 0
     bad = []
+    viol = []
     for d, seed, trace in chunk:
         st = mach.seed(seed)
+        step_viol = None
         try:
             for a in trace:
                 mach.apply(st, a, check=False)
+                if mach.step_invariant is not None and step_viol is None:
+                    # machines whose objects may carry state of their own (live Function
+                    # handles) are also judged after every step of the replay
+                    try:
+                        mach.step_invariant(st)
+                    except Violation as v:
+                        step_viol = (v.what, v.detail)
         except Exception as e:  # noqa
             bad.append((seed, trace, 'replay raised %r' % (e,)))
             continue
+        if step_viol is not None:
+            viol.append((seed, trace, step_viol[0], step_viol[1]))
+            n += 1
+            continue
         if S.digest(mach.key(st)) != d:
             bad.append((seed, trace, 'replayed state differs'))
+        else:
+            try:
+                mach.invariant(st)
+            except Violation as v:
+                viol.append((seed, trace, v.what, v.detail))
+            except Exception as e:  # noqa
+                viol.append((seed, trace, 'the state is malformed (invariant checker raised %s)'
+                             % type(e).__name__, dict(error=str(e)[:160])))
         n += 1
-    return n, bad
+    return n, bad, viol
 
 
 _replay.returns_report = False
@@ -182,8 +205,12 @@ def bfs(mach, depth, rep=None, validate='deepest', deadline=None, max_states=Non
         items = [(d, s, t) for (d, _, s, t) in last_layer]
         nchunks = max(1, min(len(items), env.NPROC * 4))
         size = (len(items) + nchunks - 1) // nchunks
-        for n, bad in pmap(_replay, _chunks(items, size)):
+        for n, bad, viol in pmap(_replay, _chunks(items, size)):
             validated += n
+            for seed, trace, what, detail in viol:
+                rep.violation('replayed:' + what, what + ' (on the state replayed from the '
+                              'constructor, objects alive through the whole trace)',
+                              dict(machine=mach.name, seed=seed, trace=list(trace)), **detail)
             if bad:
                 raise HarnessError(
                     'nondeterminism not owned: replay of a trace from the constructor '
@@ -198,6 +225,7 @@ class Machine:
     """Base class for drivers."""
     name = 'machine'
     rep = None
+    step_invariant = None     # optional: callable(state), evaluated after every replayed step
 
     def seed_labels(self):
         return ['fresh']
